@@ -294,9 +294,64 @@ def _check_units(w):
     return None
 
 
+def _tie_inputs(q, u, res, nmax, rng, count):
+    """raw values whose exact converted value lies next to a rounding tie of the library's rounding step
+    (where a conversion that rounds twice, or rounds an intermediate, goes wrong)"""
+    inv = {("TEMPERATURE", "c"): lambda y: y + Fraction("273.15"),
+           ("TEMPERATURE", "f"): lambda y: (y - 32) * Fraction(5, 9) + Fraction("273.15"),
+           ("ANGLE", "deg"): lambda y: y * Fraction(math.pi) / 180,
+           ("SPEED", "kts"): lambda y: y * Fraction(1852, 3600)}.get((q, u))
+    if inv is None:
+        return []
+    _, tol = _exact(q, u, 1.0)
+    step = 2 * tol
+    lo, hi = _exact(q, u, 0.0)[0], _exact(q, u, float(Fraction(res) * nmax))[0]
+    m_lo, m_hi = int(lo / step), int(hi / step)
+    out = []
+    for _ in range(count):
+        m = rng.randint(min(m_lo, m_hi), max(m_lo, m_hi))
+        x = inv((m + Fraction(1, 2)) * step)
+        n0 = int(x / Fraction(res))
+        out += [n for n in range(n0 - 3, n0 + 5) if 0 <= n <= nmax]
+    return out
+
+
+def _tie_search(ctx, rng, emit):
+    done = {}
+    for d in db():
+        for f in d["Fields"]:
+            q = f.get("PhysicalQuantity")
+            if q not in UNITS or f.get("FieldType") != "NUMBER" or "BitOffset" not in f or f.get("Signed"):
+                continue
+            res, ln = f.get("Resolution", 1), f["BitLength"]
+            if done.get((q, res), 0) >= ctx.n(1, 3) or ln > 32:
+                continue
+            base = None
+            for (p, n) in payloads(d, rng, 1, 1):
+                base = (p, n)
+                break
+            if base is None:
+                continue
+            done[(q, res)] = done.get((q, res), 0) + 1
+            nmax = min((1 << ln) - 3, int(Fraction(str(f.get("RangeMax", 0))) / Fraction(str(res))) if f.get("RangeMax") else (1 << ln) - 3)
+            for u in UNITS[q]:
+                for nraw in _tie_inputs(q, u, Fraction(str(res)), nmax, rng, ctx.n(25, 250)):
+                    mask = ((1 << ln) - 1) << f["BitOffset"]
+                    p = (base[0] & ~mask) | (nraw << f["BitOffset"])
+                    PQn = {"TEMPERATURE": "TEMPERATURE", "PRESSURE": "PRESSURE", "ANGLE": "ANGLE", "SPEED": "SPEED"}[q]
+                    emit(_check_units({"kind": "units", "pgn": d["PGN"], "payload": p.to_bytes(base[1], "little").hex(),
+                                       "prefs": {PQn: u.upper() if rng.random() < 0.5 else u}}))
+
+
 def search(ctx):
     rng = ctx.rng
     out, seen = [], set()
+
+    def emit(r):
+        if r and r["key"] not in seen:
+            seen.add(r["key"])
+            out.append(r)
+    _tie_search(ctx, rng, emit)
     focus = {c.get("pgn") for h in ctx.hints for c in h.get("cases", []) if isinstance(c, dict)}
     for d in db():
         if not _has_q(d):
